@@ -18,7 +18,7 @@
    implementation (Arc payloads) is checked on real cloned Contexts. *)
 From Coq Require Import List String NArith.
 From NV Require Import Session.Resolver Session.ResolverProofs Session.Context Session.ContextProofs
-     Session.BatchProofs Session.SaveProofs Session.Toy Session.ToyFold Session.ParseConcat
+     Session.BatchProofs Session.SaveProofs Session.Toy Session.ToyFold Session.ParseConcat Session.FoldStages
      Gen.CtxSkeleton Gen.ParserLoop.
 Import ListNotations.
 Local Open Scope list_scope.
@@ -116,6 +116,34 @@ Section C07save.
     - apply (session_app M M_eqb Code S importer parse A B C T1 T2 EA EB EC V P transform check run).
   Qed.
 End C07save.
+
+(* ---- premise (a) discharged for EVERY instance whose stages are folds over the
+        statement list (per-statement step functions arbitrary; each fold stops at
+        the first failing statement and keeps the state reached; the run step yields
+        the value of an expression statement and the prints and does not consult the
+        name tables).  Only the parser premise (b) remains. ---- *)
+Theorem C07_fold_any_folds :
+  forall (M : Type) (M_eqb : M -> M -> bool) (Code S : Type)
+         (importer : M -> option Code) (parse : Code -> option (list (stmt M S)))
+         (A B C X1 X2 EA EB EC V0 P : Type)
+         (tstep : A -> S -> A * (X1 + EA)) (cstep : B -> X1 -> B * (X2 + EB))
+         (rstep : C -> X2 -> C * (option V0 + EC) * list P) (cat : Code -> Code -> Code),
+    (forall a b pa pb, parse a = Some pa -> parse b = Some pb -> parse (cat a b) = Some (pa ++ pb)) ->
+    forall k fuel c a b cs c1 v1 p1 c2 v2 p2,
+      interpret M M_eqb Code S importer parse A B C (list X1) (list X2) EA EB EC (option V0) P
+                (f_transform S A X1 EA tstep) (f_check B X1 X2 EB cstep) (f_run A B C X2 EC V0 P rstep)
+                k fuel c a cs = (c1, Done M EA EB EC (option V0) P v1 p1) ->
+      interpret M M_eqb Code S importer parse A B C (list X1) (list X2) EA EB EC (option V0) P
+                (f_transform S A X1 EA tstep) (f_check B X1 X2 EB cstep) (f_run A B C X2 EC V0 P rstep)
+                k fuel c1 b cs = (c2, Done M EA EB EC (option V0) P v2 p2) ->
+      exists c2',
+        interpret M M_eqb Code S importer parse A B C (list X1) (list X2) EA EB EC (option V0) P
+                  (f_transform S A X1 EA tstep) (f_check B X1 X2 EB cstep) (f_run A B C X2 EC V0 P rstep)
+                  k fuel c (cat a b) cs
+        = (c2', Done M EA EB EC (option V0) P (keep V0 v1 v2) (p1 ++ p2))
+        /\ ctx_eqv M Code A B C c2' c2.
+Proof. exact folded_batched_equals_incremental. Qed.
+Print Assumptions C07_fold_any_folds.
 
 (* ---- premise (a) discharged for the executable instance ---- *)
 Theorem C07_fold_toy :
